@@ -64,7 +64,7 @@ def bool_fn_value(fn, atom, inl=None):
     return None if unknown or not rets else False
 
 
-def symbolic_return(fn, values=False):
+def symbolic_return(fn, values=False, params=False):
     """canonical text of the value returned by a straight-line function: declarations and plain assignments at the top level of
     the body are substituted in program order (so `T r = a; r = max(r, b); return r;`, `return max(a, b);` and any naming /
     hoisting in between print the same); throwing guards and early `return` guards are skipped; a local written anywhere else
@@ -72,6 +72,11 @@ def symbolic_return(fn, values=False):
     import astu
     env = {}
     dirty = set()
+    if params:
+        # parameters read as p0, p1, ..: their names do not matter either
+        for i, pm in enumerate(fn.get("params") or []):
+            if "d" in pm:
+                env[pm["d"]] = _frozen("p%d" % i)
 
     def sub(e):
         return astu.txt(e, env)
